@@ -1,17 +1,11 @@
 (** C10 obligation: texts that do not denote a value of the type are rejected when read: anything but Y / N for Bool; a token outside the set for
     OneOf; a non-empty text without any decimal digit for Integer; a text without any decimal digit (this covers NaN / Infinity) for Decimal. *)
-From OfxV Require Import Base.Prelude Base.Digits Gen.ScalarsGen Model.PyDecimal Model.Scalars Model.ScalarsLex Proofs.ScalarsText Proofs.PyDecimalProofs Proofs.ScalarsProofs Proofs.ScalarsLexProofs.
+From OfxV Require Import Base.Prelude Base.Digits Gen.ScalarsGen Model.PyDecimal Model.Scalars Model.ScalarsLex Proofs.ScalarsText Proofs.PyDecimalProofs Proofs.ScalarsProofs Proofs.ScalarsLexProofs Proofs.ScalarsThms.
 Local Open Scope N_scope.
 Theorem T_bad_text_rejected_on_read : forall e s,
   (elem_sty e = TBool -> s <> [89] -> s <> [78] -> convert e (PStr s) = Err Reject) /\
   (forall valid, elem_sty e = TOneOf valid -> s <> [] -> ~ In s valid -> convert e (PStr s) = Err Reject) /\
   (forall l, elem_sty e = TInteger l -> s <> [] -> has_digit s = false -> convert e (PStr s) = Err Reject) /\
   (forall sc, elem_sty e = TDecimal sc -> has_digit s = false -> is_ok (convert e (PStr s)) = false).
-Proof.
-  intros e s. rewrite convert_elem. repeat split.
-  - intros -> H1 H2. exact (bool_bad_text _ s H1 H2).
-  - intros valid -> H1 H2. exact (oneof_bad_text valid _ s H1 H2).
-  - intros l -> H1 H2. exact (integer_non_numeric l _ s H1 H2).
-  - intros sc -> H. exact (decimal_non_numeric sc _ s H).
-Qed.
+Proof. exact T_bad_text_rejected_on_read_l. Qed.
 Print Assumptions T_bad_text_rejected_on_read.
